@@ -94,6 +94,7 @@ Section Leaves.
                    bind (match sub with
                          | TLeaf v =>
                              if leaf_walk_ok ss v then Ok (map (fun p => LLeaf p (LV v)) ps) else Err
+                         | TLeafList [] => Ok []                     (* an empty non-nil leaf-list is not reported *)
                          | TLeafList vs => Ok (map (fun p => LLeaf p (LVs vs)) ps)
                          | TCont _ => find_leaves atomic ss sub p0
                          | TUnkeyed _ => Err                       (* keyless list cannot be output *)
